@@ -84,11 +84,15 @@ Definition select_feed (ts : list trans) (b : N) : option trans :=
   | None => match e with Some k => nth_error ts k | None => None end
   end.
 
-(** DFState.__getitem__(End): first transition carrying End, otherwise first carrying Else *)
+(** _generate_end_switch_body: DFState.__getitem__(End) - the first transition carrying End, otherwise the first
+    carrying Else - but a transition found only through Else is used only if it falls through (a consuming one is
+    for bytes; end of input is not a byte) *)
 Definition select_end (ts : list trans) : option trans :=
   match find (fun t => has (t_on t) sym_end) ts with
   | Some t => Some t
-  | None => find (fun t => has (t_on t) bit_else) ts
+  | None => match find (fun t => has (t_on t) bit_else) ts with
+            | Some t => if t_fall t then Some t else None
+            | None => None end
   end.
 
 Definition select (ts : list trans) (s : sym) : option trans :=
